@@ -4,10 +4,12 @@
    the observation of a step is the outcome (ok / exception class), the objects whose dump
    changed (index, new dump; index = old pool size means "appended"), and for
    axes_from_lists the returned Axis list. *)
-From Geff Require Export Base Meta.
+From Geff Require Export Base Meta MetaAlias.
 Open Scope list_scope.
 
-Inductive input := IRun (gv : string) (ops : list op).
+Inductive input :=
+| IRun (gv : string) (ops : list op)
+| IRunA (gv : string) (ops : list aop).   (* the same with PropMetadata instances explicit (MetaAlias.v) *)
 
 Definition step_obs := (res unit * list (nat * metadata) * option (list axis))%type.
 Inductive obs := ORun (steps : list step_obs).
@@ -32,8 +34,18 @@ Fixpoint trace (gv : string) (p : pool) (ops : list op) : list step_obs :=
               (snd s, diff_from 0 p (fst s), returned_axes o) :: trace gv (fst s) r
   end.
 
+Fixpoint atrace (gv : string) (s : astate) (ops : list aop) : list step_obs :=
+  match ops with
+  | [] => []
+  | o :: r => let s' := astep gv s o in
+              (snd s', diff_from 0 (views s) (views (fst s')), returned_axes (erase o)) :: atrace gv (fst s') r
+  end.
+
 Definition model (i : input) : obs :=
-  match i with IRun gv ops => ORun (trace gv [] ops) end.
+  match i with
+  | IRun gv ops => ORun (trace gv [] ops)
+  | IRunA gv ops => ORun (atrace gv empty_state ops)
+  end.
 
 Definition change_eqb (a b : nat * metadata) : bool := Nat.eqb (fst a) (fst b) && md_eqb (snd a) (snd b).
 Definition step_obs_eqb (a b : step_obs) : bool :=
@@ -44,4 +56,10 @@ Definition step_obs_eqb (a b : step_obs) : bool :=
 Definition obs_eqb (a b : obs) : bool :=
   match a, b with ORun x, ORun y => list_eqb step_obs_eqb x y end.
 
-Definition check (c : input * obs) : bool := obs_eqb (model (fst c)) (snd c).
+(* a history in which the caller shares no instance is also compared with the pool model of Meta.v *)
+Definition check (c : input * obs) : bool :=
+  obs_eqb (model (fst c)) (snd c)
+  && match fst c with
+     | IRunA gv ops => if forallb no_sharing ops then obs_eqb (ORun (trace gv [] (map erase ops))) (snd c) else true
+     | IRun _ _ => true
+     end.
